@@ -312,9 +312,14 @@ def g_pr(rng, endless=False):
 def g_chain(rng, base, depth=None, endless=False):
     depth = rng.choice([0, 1, 1, 2, 2, 3]) if depth is None else depth
     e = base
+    mapped = False
     for _ in range(depth):
         if rng.random() < 0.5:
             e = ("map", g_fn(rng), e)
+            mapped = True
+        elif endless and mapped:
+            # over an endless source a filter must let infinitely many elements through
+            e = ("filter", rng.choice([("true",), ("ne", rng.choice(NUMS))]), e)
         else:
             e = ("filter", g_pr(rng, endless), e)
     return e
@@ -376,7 +381,9 @@ def g_for(rng, d, depth_left, env):
     env2 = dict(env)
     if rng.random() < 0.5:
         env2["same"] = e
-    return ("for", e, g_body(rng, d, depth_left, env2))
+    # a loop that may push onto the vector it walks is bounded by a break
+    guard = [("if", d, 6, [("break",)])] if env.get("wvars") else []
+    return ("for", e, guard + g_body(rng, d, depth_left, env2))
 
 
 def g_program(rng):
@@ -607,6 +614,38 @@ def judge(ctx, p, stats):
     stats["checked"] += 1
 
 
+def reference_compare(ctx, progs):
+    """third party: the full reference interpreter of the language (SpecRun/ParseRun/SpecScripts, other owners)"""
+    need = ("SpecRun.vo", "ParseRun.vo", "SpecScripts.vo")
+    if not all(os.path.exists(os.path.join(yvlib.COQ, "theories", f)) for f in need):
+        ctx.notes.append("SpecRun/ParseRun/SpecScripts not built: comparison with the full reference interpreter skipped")
+        return {"compared": 0}
+    vals = yvlib.coq_eval(["YV:SpecScripts"], ['run_case 400 [] "%s"' % hx(p["src"]) for p in progs],
+                          shard_size=max(4, (len(progs) + 2 * yvlib.NPROC - 1) // (2 * yvlib.NPROC)), tag="C18ref",
+                          preamble="Open Scope string_scope.\n")
+    st = {"compared": 0, "equal": 0, "undetermined": 0, "disagrees_with_impl_M_S": 0}
+    for p, v in zip(progs, vals):
+        m = re.match(r"^out=\[([0-9a-f,]*)\];res=ok:", v or "")
+        if not m:
+            st["undetermined"] += 1     # fuel, parse problem, error outcome
+            continue
+        ref = unlines(m.group(1)) if m.group(1) != "" else []
+        st["compared"] += 1
+        if ref == p["impl"] and p["impl_res"][0] == "ok":
+            st["equal"] += 1
+        elif p["impl"] == p["mech"] and (p["spec"] == ["SKIP"] or p["impl"] == p["spec"]):
+            # impl, M and S agree with each other: the third party is the odd one out
+            st["disagrees_with_impl_M_S"] += 1
+            if st["disagrees_with_impl_M_S"] <= 3:
+                ctx.notes.append("reference interpreter (SpecRun) prints %s where impl = M = S print %s: %s" % (
+                    ref[:12], p["impl"][:12], w_prog(p["fun"], p["loc"], p["body"])[:200]))
+            if p["spec"] == ["SKIP"]:
+                ctx.violation("printed sequence differs from the reference interpreter (SpecRun) on a program the "
+                              "list-level Spec leaves open", input=p["src"], expected=ref, actual=p["impl"],
+                              wire=w_prog(p["fun"], p["loc"], p["body"]), stream=p["stream"])
+    return st
+
+
 def nontrivial(p):
     f = p["facts"]
     return (f["chain"] >= 2 or f["nest"] >= 2) and f["elems"] >= 2 and p.get("early", 0) >= 1
@@ -729,10 +768,7 @@ def run(ctx):
     }
     if stats["model_fuel"]:
         ctx.notes.append("%d programs ran out of model fuel (skipped)" % stats["model_fuel"])
-    for f in ("SpecRun.v", "ParseRun.v"):
-        if not os.path.exists(os.path.join(yvlib.COQ, "theories", f)):
-            ctx.notes.append("reference interpreter %s not present: comparison with it skipped" % f)
-            break
+    refstats = reference_compare(ctx, done if not quick else done[::2])
     sample = next((p for p in done if nontrivial(p)), done[0])
     ctx.cov.update({
         "evaluations": len(done),
@@ -745,6 +781,7 @@ def run(ctx):
                 "(distinct wire encodings counted)",
         "traces_validated_against_impl": stats["checked"],
         "spec_compared": stats["spec_checked"], "spec_undetermined": stats["spec_skip"],
+        "reference_interpreter": refstats,
         "input_distribution": dist,
         "samples": [sample["src"][sample["src"].index("var c0"):][:1500], w_prog(sample["fun"], sample["loc"], sample["body"])],
     })
